@@ -6,7 +6,8 @@ outage = refuse x k (k in 0..20, retries 2 s apart) and/or connect latency;
 console state changes while the link is down (any defined value) or none at all;
 refresh answers immediate or delayed; AT4: gaps between group status frames from
 {10, 299, 300 - 1/8, 300 + 1/8, 450, 1000} s, silence of up to 2000 s, group
-frames carrying unchanged data.
+frames carrying unchanged data; AT4 outages longer than 300 s (151..310 refused
+attempts) followed by a reconnection whose group status answer is lost.
 
 Oracle.  On every connection established after initialisation the console
 receives, at the very instant of the open, an AC status request and a zone/group
@@ -53,7 +54,14 @@ def _history(draw, gen: int):
     ops = []
     n = draw(st.integers(2, 7))
     for _ in range(n):
-        kind = draw(st.sampled_from(["outage", "outage", "gap", "gap", "push_zone", "silence"]))
+        kind = draw(st.sampled_from(["outage", "outage", "gap", "gap", "push_zone", "silence"] + (["mute_outage"] if gen == 4 else [])))
+        if kind == "mute_outage":
+            # AT4: an outage longer than the 300 s group-silence allowance (so a poll deadline passes while the client is
+            # not connected), after which the console's answer to the refresh request is lost: the silence continues on
+            # the new connection and has to be noticed there
+            ops.append(["mute_outage", draw(st.sampled_from(["eof", "reset"])), draw(st.sampled_from([151, 160, 200, 310])),
+                        draw(st.sampled_from([0.0, 0.125, 1.0])), draw(st.sampled_from([350.0, 650.0, 1000.0]))])
+            continue
         if kind == "outage":
             muts = []
             for a in ac_ids:
@@ -210,6 +218,30 @@ class Interp(apiops.ApiInterp):
         self._before_raw = copy.deepcopy(self.state)
         self.nt.add("outage")
 
+    def x_mute_outage(self, how, k, lat, after):
+        rig, net, c = self.rig, self.rig.net, self.rig.console
+        tr = self.tr
+        if tr is None:
+            return
+        for _ in range(k):
+            net.script.append(("refuse", 0.0))
+        net.script.append(("accept", lat))
+        # the console's state does not move; its answer to the first group status request (the refresh) is lost
+        c.behaviour = {"zone_status_req": [{"skip": True}]}
+        c.step_count = {}
+        (tr.peer_eof if how == "eof" else tr.peer_reset)()
+        rig.loop.settle()
+        rig.loop.advance(2.0 * k + lat)
+        net.script.clear()
+        if self.tr is None or not rig.sock.is_connected:
+            self.bad("no-reconnect", f"link lost, {k} refusals then accept after {lat} s: client not connected at t={rig.loop.time()}")
+        rig.loop.advance(0.125)
+        self.check_model("after a reconnection whose group status answer was lost (console state unchanged)")
+        rig.loop.advance(after)
+        self.check_model(f"{after} s after a reconnection whose group status answer was lost")
+        self._before_raw = copy.deepcopy(self.state)
+        self.nt.add("outage-over-a-poll-deadline+lost-answer")
+
     _before_raw = None
 
     def _raw_changed(self, n):
@@ -318,7 +350,8 @@ def shards(tier: str):
 
 
 def floors(tier: str):
-    return {"outage": 200, "poll": 50, "state-changed-while-down": 100, "after-reinit": 150, "refresh-write-fails": 100}
+    return {"outage": 200, "poll": 50, "state-changed-while-down": 100, "after-reinit": 150, "refresh-write-fails": 100,
+            "outage-over-a-poll-deadline+lost-answer": 100}
 
 
 def run_shard(spec, seed: int, tier: str):
